@@ -164,11 +164,31 @@ pub fn c12_local_histogram_drop_flushes() {
     vcover!(true, "end of harness reached");
 }
 
+/// Quick forms (one scenario each; the full sets above are the thorough tier).
+#[cfg_attr(kani, kani::proof, kani::unwind(4))]
+pub fn c12_local_histogram_flush_twice_quick() {
+    local_hist_case(1, 0);
+    vcover!(true, "end of harness reached");
+}
+#[cfg_attr(kani, kani::proof, kani::unwind(4))]
+pub fn c12_local_histogram_clone_quick() {
+    local_hist_case(1, 2);
+    vcover!(true, "end of harness reached");
+}
+#[cfg_attr(kani, kani::proof, kani::unwind(4))]
+pub fn c12_local_histogram_drop_quick() {
+    local_hist_case(1, 4);
+    vcover!(true, "end of harness reached");
+}
+
 pub fn dispatch(name: &str) -> Option<fn()> {
     Some(match name {
         "c12_int_counter_two_locals_two_ops" => c12_int_counter_two_locals_two_ops,
         "c12_float_counter_flush_twice" => c12_float_counter_flush_twice,
         "c12_local_histogram_flush_and_clear" => c12_local_histogram_flush_and_clear,
+        "c12_local_histogram_flush_twice_quick" => c12_local_histogram_flush_twice_quick,
+        "c12_local_histogram_clone_quick" => c12_local_histogram_clone_quick,
+        "c12_local_histogram_drop_quick" => c12_local_histogram_drop_quick,
         "c12_local_histogram_clone_and_direct" => c12_local_histogram_clone_and_direct,
         "c12_local_histogram_drop_flushes" => c12_local_histogram_drop_flushes,
         _ => return None,
